@@ -388,6 +388,54 @@ fn fidelity(rep: &mut Report) {
                 }
             }
         }
+        // several exchanges on ONE socket with requested sizes that go down and up again, with and without a receive that
+        // times out in between: what a receive delivers depends on its own request only (nothing carried over from earlier ones)
+        let seqs: [&[Option<usize>]; 5] = [
+            &[Some(16), Some(2048), Some(16), Some(2048)],
+            &[Some(65535), Some(16), Some(1400), Some(6144)],
+            &[None, Some(13), None, Some(1400)],
+            &[Some(2048), Some(1), Some(65535)],
+            &[Some(1400), Some(0), Some(1400)],
+        ];
+        for (si, seq) in seqs.iter().enumerate() {
+            for silence_at in [None, Some(1usize), Some(2)] {
+                rep.evaluations += 1;
+                rep.distinct.insert(hash_of(&("udp-seq", ipv, si, silence_at)));
+                let n = 3000usize;
+                let full: Vec<u8> = (0 .. n).map(|i| (i * 7 + 3) as u8).collect();
+                let r = std::panic::catch_unwind(|| -> Result<Vec<(Option<usize>, Vec<u8>)>, String> {
+                    let mut sock = UdpSocket::new(&addr, &settings(0, "r")).map_err(|e| format!("{:?}", e.kind))?;
+                    let mut got = Vec::new();
+                    for (i, want) in seq.iter().enumerate() {
+                        if silence_at == Some(i) {
+                            // a request the peer does not answer (shorter than its 4-byte size field): the receive times out
+                            sock.send(&[1, 2]).map_err(|e| format!("send {:?}", e.kind))?;
+                            if sock.receive(*want).is_ok() {
+                                return Err("a receive returned data although the peer sent nothing".into());
+                            }
+                        }
+                        sock.send(&(n as u32).to_le_bytes()).map_err(|e| format!("send {:?}", e.kind))?;
+                        got.push((*want, sock.receive(*want).map_err(|e| format!("receive {:?}", e.kind))?));
+                    }
+                    Ok(got)
+                });
+                let case = json!({"transport":"udp","ipv":ipv,"payload":n,"requested_sequence":seq,"silence_before":silence_at});
+                match r {
+                    Ok(Ok(got)) => {
+                        for (want, d) in got {
+                            let lim = want.unwrap_or(1024).min(n);
+                            if d != full[.. lim] {
+                                rep.violation("C12", &format!("udp/ipv{ipv}: a later receive on the same socket is not the payload up to ITS requested size"),
+                                              json!({"kind":"fidelity","case":case,"got_len":d.len(),"want_len":lim}));
+                                break;
+                            }
+                        }
+                    }
+                    Ok(Err(e)) => rep.violation("C12", &format!("udp/ipv{ipv}: {e} against an answering loopback peer (several exchanges on one socket)"), json!({"kind":"fidelity","case":case})),
+                    Err(_) => rep.violation("C12", &format!("udp/ipv{ipv}: panic {}", crate::valve::first_line(&take_panic())), json!({"kind":"fidelity","case":case})),
+                }
+            }
+        }
         stop.store(true, Ordering::Relaxed);
         let _ = h.join();
         // TCP: bytes out, bytes back until the peer closes
